@@ -34,6 +34,10 @@ OUTSIDERS = {
     "kind-conflict": ["dep/5.S.1.0.dsdl", "dep/S.1.1.dsdl"],
     "own-root": ["tgt/Unused.1.0.dsdl"],  # only for read_files: another definition of the target's root
     "own-root-collision": ["tgt/7000.V.1.0.dsdl", "tgt/7000.W.1.0.dsdl"],
+    # other lookup directories whose root namespace has the target root's name and which hold namesakes of the targets
+    # (of U only: T is referenced by U, and a reference to a name defined twice is a collision by C09)
+    "namesake-roots": ["o1/tgt/U.1.0.dsdl", "o2/tgt/U.1.0.dsdl", "o3/tgt/U.1.0.dsdl", "o4/tgt/U.1.0.dsdl", "o1/tgt/X.1.0.dsdl"],
+    "namesake-dep-roots": ["o1/dep/Unused.1.0.dsdl", "o2/dep/sub/E.1.0.dsdl"],
 }
 
 
@@ -46,6 +50,8 @@ class _Tree:
             files[o] = "@sealed\n"
         model.write_tree(self.root, files)
         self.outsider_paths = {(self.root / o).resolve() for o in outsiders}
+        self.extra_lookups = sorted({self.root / o.split("/")[0] / o.split("/")[1] for o in outsiders
+                                     if o.split("/")[0] not in ("tgt", "dep")})
 
 
 @contextlib.contextmanager
@@ -75,10 +81,11 @@ def _run(api: str, tree: _Tree, targets: typing.List[str], prints: typing.List[t
 
     def go() -> typing.Any:
         if api == "read_namespace":
-            ts = pydsdl.read_namespace(tree.root / "tgt", [tree.root / "dep"], handler, allow_unregulated_fixed_port_id=True)
+            ts = pydsdl.read_namespace(tree.root / "tgt", [tree.root / "dep"] + tree.extra_lookups, handler,
+                                       allow_unregulated_fixed_port_id=True)
             return tuple(model.summary(t) for t in ts)
-        d, tr = pydsdl.read_files([tree.root / t for t in targets], [tree.root / "tgt"], [tree.root / "dep"], handler,
-                                  allow_unregulated_fixed_port_id=True)
+        d, tr = pydsdl.read_files([tree.root / t for t in targets], [tree.root / "tgt"], [tree.root / "dep"] + tree.extra_lookups,
+                                  handler, allow_unregulated_fixed_port_id=True)
         return tuple(model.summary(t) for t in d), tuple(model.summary(t) for t in tr)
 
     return model.outcome(go)
@@ -87,8 +94,12 @@ def _run(api: str, tree: _Tree, targets: typing.List[str], prints: typing.List[t
 def make_closure(api: str, scenario: str, targets: typing.List[str]):
     outs = OUTSIDERS[scenario]
     tree = _Tree(outs)
+    # the reference result comes from a tree WITHOUT the outsiders: what is outside the closure cannot matter
+    bare = _Tree([])
+    bare.extra_lookups = []
     base_prints = []  # type: typing.List[typing.Any]
-    baseline = _run(api, tree, targets, base_prints)
+    baseline = _strip(_run(api, bare, targets, base_prints), bare.root)
+    base_prints = [(_rel(p, bare.root), l, t) for p, l, t in base_prints]
     assert baseline[0] == "ok", baseline
     opaths = sorted(tree.outsider_paths)
 
@@ -97,19 +108,29 @@ def make_closure(api: str, scenario: str, targets: typing.List[str]):
         prints = []  # type: typing.List[typing.Any]
         touched = []  # type: typing.List[Path]
         with _symbolic_text(tree.outsider_paths, texts, touched):
-            got = _run(api, tree, targets, prints)
+            got = _strip(_run(api, tree, targets, prints), tree.root)
+        prints = [(_rel(p, tree.root), l, t) for p, l, t in prints]
         if touched:
             return "text of a definition outside the closure was loaded: %s" % sorted({str(p) for p in touched})
         if got != baseline:
             return "result depends on a definition outside the closure"
         if prints != base_prints:
             return "print output differs: %r vs %r" % (prints, base_prints)
-        for p in prints:
-            if Path(p[0]) in tree.outsider_paths:
-                return "print handler called for an unreferenced definition"
         return True
 
     return h
+
+
+def _rel(p: str, root: Path) -> str:
+    r = str(root.resolve())
+    return p[len(r):] if p.startswith(r) else p
+
+
+def _strip(outcome: typing.Any, root: Path) -> typing.Any:
+    """Error outcomes carry a path under the scratch root: make it relative so that two trees can be compared."""
+    if outcome and outcome[0] == "error" and outcome[2]:
+        return (outcome[0], outcome[1], _rel(outcome[2], root), outcome[3])
+    return outcome
 
 
 def conditions(tier: str, seed: int) -> typing.List[Cond]:
@@ -119,6 +140,8 @@ def conditions(tier: str, seed: int) -> typing.List[Cond]:
             if api == "read_namespace" and scenario.startswith("own-root"):
                 continue  # read_namespace reads every definition of the target root by contract
             targets = ["tgt/T.1.0.dsdl"] if api == "read_files" else []
+            if scenario == "namesake-roots" and api == "read_files":
+                targets = ["tgt/U.1.0.dsdl"]
             out.append(Cond(PROP, "c19.text", make_closure, {"api": api, "scenario": scenario, "targets": targets},
                             {"t0": str, "t1": str}, assumptions=["text of each outsider: any str (unconstrained)"],
                             stubs=["DSDLDefinition.text overridden for outsider paths (returns the symbolic str and "
